@@ -68,7 +68,7 @@ def dot(t1, t2, k=None):
         return t1.flatten().dot(t2.flatten())
     if t1.batch or t2.batch:
         raise ValueError("Batched tensors are not supported.")
-    Lprod = torch.ones([t2.ranks_tt[0], t1.ranks_tt[0]], device=t1.cores[0].device)
+    Lprod = torch.ones([t2.ranks_tt[0], t1.ranks_tt[0]], dtype=t1.cores[0].dtype, device=t1.cores[0].device)
     if k is None:
         k = min(t1.dim(), t2.dim())
     assert k <= t1.dim() and k <= t2.dim()
